@@ -212,6 +212,25 @@ pub trait Sub: Send + Sync {
     fn run(&self, env: &RunEnv) -> SubStats;
     /// re-evaluate one stored case (strict: known findings are NOT absorbed unless listed open)
     fn replay(&self, env: &RunEnv, case: &Value) -> Result<Res, String>;
+    /// Coverage-guided mode (DESIGN.md §7.2): a closure that turns one libFuzzer input into one
+    /// generated case — the bytes ARE the random source of the sub-check's own proptest strategy
+    /// (`RngAlgorithm::PassThrough`) — and judges it with the sub-check's own oracle.
+    /// None: the sub-check has no generator (enumerations).
+    fn fuzzer<'a>(&'a self, _env: &'a RunEnv) -> Option<Box<dyn FnMut(&[u8]) -> FuzzOut + 'a>> {
+        None
+    }
+}
+
+/// Verdict of one coverage-guided execution.
+#[derive(Debug)]
+pub enum FuzzOut {
+    /// the bytes did not yield a case (generator rejected them)
+    Skip,
+    Pass { nontrivial: bool },
+    /// absorbed by a listed open known finding
+    Known(&'static str),
+    /// property violated: message, path of the replay file (minimal case after shrinking)
+    Fail { msg: String, replay: String },
 }
 
 fn absorb(
@@ -297,6 +316,65 @@ where
 {
     fn name(&self) -> &'static str {
         self.name
+    }
+    fn fuzzer<'a>(&'a self, env: &'a RunEnv) -> Option<Box<dyn FnMut(&[u8]) -> FuzzOut + 'a>> {
+        use proptest::strategy::{Strategy, ValueTree};
+        use proptest::test_runner::TestRng;
+        let strat = (self.strategy)(env.tier);
+        let cfg = Config {
+            failure_persistence: None,
+            max_shrink_iters: self.max_shrink_iters,
+            max_global_rejects: 256,
+            max_local_rejects: 256,
+            verbose: 0,
+            ..Config::default()
+        };
+        // NOTE: only meaningful with /verif/vendor/proptest (patched in by fuzz/Cargo.toml): in
+        // upstream proptest an exhausted pass-through source yields zeros for ever, which rand's
+        // uniform sampler rejects for most ranges (endless loop), and `fork` halves what is left
+        // on every prop_flat_map.  The vendored copy continues with a pseudo-random stream.
+        Some(Box::new(move |data: &[u8]| {
+            let rng = TestRng::from_seed(RngAlgorithm::PassThrough, data);
+            let mut runner = TestRunner::new_with_rng(cfg.clone(), rng);
+            let mut tree = match no_panic(|| strat.new_tree(&mut runner)) {
+                Ok(Ok(t)) => t,
+                _ => return FuzzOut::Skip,
+            };
+            let case = tree.current();
+            let mut cx = Cx::default();
+            match absorb(env, no_panic(|| (self.eval)(&case, &mut cx))) {
+                Ok(()) => FuzzOut::Pass { nontrivial: cx.nontrivial },
+                Err(Bad::Known(id, _)) => FuzzOut::Known(id),
+                Err(Bad::Fail(first)) => {
+                    // proptest's own shrink loop over the value tree, same oracle
+                    let mut best = (case, first);
+                    let mut iters = 0u32;
+                    let fails = |c: &C| -> Option<String> {
+                        let mut cx = Cx::default();
+                        match absorb(env, no_panic(|| (self.eval)(c, &mut cx))) {
+                            Err(Bad::Fail(m)) => Some(m),
+                            _ => None,
+                        }
+                    };
+                    'outer: while iters < self.max_shrink_iters && tree.simplify() {
+                        loop {
+                            iters += 1;
+                            let c = tree.current();
+                            if let Some(m) = fails(&c) {
+                                best = (c, m);
+                                break;
+                            }
+                            if iters >= self.max_shrink_iters || !tree.complicate() {
+                                break 'outer;
+                            }
+                        }
+                    }
+                    let v = serde_json::to_value(&best.0).unwrap_or(Value::Null);
+                    let replay = write_replay(env, self.name, &v, &best.1);
+                    FuzzOut::Fail { msg: best.1, replay }
+                }
+            }
+        }))
     }
     fn run(&self, env: &RunEnv) -> SubStats {
         let t0 = Instant::now();
